@@ -10,6 +10,7 @@ mod c18;
 mod c17;
 mod stats;
 mod c07;
+mod c10;
 
 use util::Out;
 
@@ -36,6 +37,7 @@ fn main() {
         "C13" => stats::run_c13(&mut out),
         "C07" => c07::run_c07(&mut out),
         "C08" => c07::run_c08(&mut out),
+        "C10" => c10::run(&mut out),
         _ => {
             eprintln!("unknown property {prop}");
             std::process::exit(2);
